@@ -22,6 +22,7 @@ func elemOfValue(v ssa.Value, isList func(ssa.Value) bool) bool {
 func checkC04(p *Prog, r *Report) {
 	r.rule("R10 selection guards (must-pass-through over the CFG, && / || conditions resolved per predecessor): in MarshalResource an attribute is stored only behind fields[i] == attr.Name, a relationship object only behind fields[i] == rel.FromName, and a data member only behind relData[<this resource's type name>][j] == rel.FromName; no other store into those maps exists")
 	r.rule("C04.complete: the attribute and relationship loops range over all of Attrs() / Rels() and the inner search loops are only left early right after a match (nothing selected is skipped)")
+	r.rule("C04.search-complete: every loop of MarshalResource over the field selection, the relationship-data list, the attribute map or the relationship map is order-insensitive: it is left early only right after an equality match and writes only entries keyed by the current element or objects made in the iteration (so a name is found wherever it stands in the list)")
 	r.rule("C04.call-sites: every call of MarshalResource (MarshalDocument for primary and included resources, MarshalCollection for members) passes as field selection <Fields map>[x.GetType().Name] for the very resource x it passes as first argument, and the document's RelData")
 	r.rule("C04.data-shape: a to-one data member is nil exactly on the id == \"\" branch and an identifier otherwise; a to-many data member receives one identifier per element of the ID list; identifiers carry rel.ToType (shared plumbing rule)")
 	r.assume("Params.Fields was computed by NewParams (C07); duplicate names in a hand-built selection are harmless (map stores are idempotent)")
@@ -142,6 +143,12 @@ func checkC04(p *Prog, r *Report) {
 		}
 	})
 	r.floor("loops over Attrs()/Rels()", nLoops, 2)
+
+	// the searches through the field selection and the relationship-data list
+	// stop only at a match (order-insensitive traversal, shared with C11)
+	oa := &orderAnalysis{p: p, r: r, tainted: map[*ssa.Function]bool{}, rule: "C04.search-complete"}
+	_, nSearch, _ := oa.checkFunction(f)
+	r.floor("loops over selections in MarshalResource", nSearch, 4)
 
 	checkMarshalCallSites(p, r, f)
 	checkDataShape(p, r, f)
